@@ -106,7 +106,7 @@ func genWorldSpec(r *engine.PRNG) WorldSpec {
 	nb := 3 + r.Intn(4)
 	for i := 0; i < nb; i++ {
 		b := BitmapSpec{Seed: r.Uint64()}
-		b.Shape = r.PickStr("sparse", "dense", "allones", "gaps", "edges", "half")
+		b.Shape = r.PickStr("sparse", "dense", "allones", "gaps", "edges", "half", "alt", "zero", "byteedges")
 		b.NWords = r.PickInt(1, 2, 3, 4, 5, 8, 17, 40)
 		if r.Chance(1, 40) {
 			b.NWords = r.PickInt(1023, 1024, 1025, 2500) // beyond 2^16 bits
@@ -167,6 +167,15 @@ func buildBitmapWords(s BitmapSpec) []uint64 {
 			if h%4 == 0 {
 				out[i] = 0
 			}
+		case "alt":
+			out[i] = 0xaaaaaaaaaaaaaaaa
+			if h%5 == 0 {
+				out[i] = 0x5555555555555555
+			}
+		case "zero":
+			out[i] = 0
+		case "byteedges": // bits at the edges of bytes
+			out[i] = 0x8100000000000081 | (h & 0x0080010000800100)
 		case "half":
 			out[i] = h & 0xffffffff00000000
 			if i%2 == 1 {
